@@ -212,7 +212,7 @@ func (w *world) onReadCall(c *simConn) {
 // installMonitor attaches the wire monitor with every oracle family enabled.
 func (w *world) installMonitor(x *xfer) *wireMon {
 	m := newWireMon(w, x)
-	for _, p := range []string{"C05", "C05.complete", "C10", "C11", "C12", "C13", "C06", "C07", "C15", "C17", "C19"} {
+	for _, p := range []string{"C04.vtag", "C05", "C05.complete", "C10", "C11", "C12", "C13", "C06", "C07", "C15", "C17", "C19"} {
 		m.props[p] = true
 	}
 	w.wm = m
